@@ -1299,3 +1299,101 @@ def rule_l8(P, tables):
                              f"before or instead of the plist tokenizer: whitespace, line breaks and what else is on the line become significant, so reformatted but equal text "
                              f"can parse differently or not at all", "loc": P.body_file_line(key), "detail": {}})
     return findings, obl, {"l8_regex_functions": n}
+
+
+def rule_t6(P):
+    """Axis indices in the emitted tables (fvar order, avar, gvar/HVAR region axes, STAT, the AxisIndex of FeatureVariations
+    conditions) all refer to ONE list: the variable axes `StaticMetadata.axes`.  `StaticMetadata.all_source_axes` also contains the
+    axes the source pins to a single value; a position in that list is a different index space.  Layering clause: only front ends
+    (source crates) read `all_source_axes` (to interpret locations given in terms of every source axis); fontir's transformations
+    and every backend job never do, so an index into it cannot reach a table."""
+    from common import norm_fn
+    findings, obl = [], []
+    readers = set()
+    for key, b in P.bodies.items():
+        if "#promoted" in key:
+            continue
+        hit = False
+        for blk in b["blocks"]:
+            for st in blk["s"]:
+                rv = st["rv"]
+                pls = [rv.get("p")] + [o.get("m") or o.get("c") for o in rv.get("o", [])]
+                if any(pl and any(isinstance(e, str) and e.startswith("f:all_source_axes:") for e in pl) for pl in pls):
+                    hit = True
+            t = blk["t"]
+            if t["t"] == "call":
+                for o in t["a"]:
+                    pl = o.get("m") or o.get("c")
+                    if pl and any(isinstance(e, str) and e.startswith("f:all_source_axes:") for e in pl):
+                        hit = True
+        if hit:
+            readers.add(b.get("root") or key)
+    n = 0
+    for r in sorted(readers):
+        if re.match(r"fontir::ir::static_metadata::(\{impl#\d+\}::(fmt|clone|eq|new)|_)", norm_fn(r)) or "::_::" in norm_fn(r):
+            continue   # derived impls and the constructor of the struct itself
+        n += 1
+        crate = r.split("::", 1)[0]
+        ok = crate in ("glyphs2fontir", "ufo2fontir", "fontra2fontir")
+        obl.append({"rule": "T6", "inst": f"{norm_fn(r)} reads StaticMetadata.all_source_axes ({'front end' if ok else 'NOT a front end'})", "ok": ok})
+        if not ok:
+            findings.append({"rule": "T6", "key": f"T6|{norm_fn(r)}", "msg": f"{r} reads StaticMetadata.all_source_axes outside a front end: positions in that list count the axes the source pins to a point, "
+                             f"while fvar/avar/gvar/HVAR/STAT and FeatureVariations conditions index the variable axes only - an axis index taken from it is shifted or out of range "
+                             f"whenever a point axis is declared before a variable one", "loc": P.body_file_line(r), "detail": {}})
+    if n < 3:
+        raise E5Error(f"T6: only {n} readers of all_source_axes found (field renamed?)")
+    return findings, obl, {"t6_all_source_axes_readers": n}
+
+
+def rule_n5(P):
+    """The name table is the union of the records derived from the source and the records the feature file declares, where a
+    feature-file record replaces a derived one only if platform, encoding, language and name id are all equal (one map keyed by
+    all four).  Structural clause for fontbe::name::merge_name_records: every derived record reaches that map - between the
+    `records` parameter and the keyed collect there is no adapter that can drop elements (filter, filter_map, skip, take, ..)."""
+    from common import norm_fn
+    findings, obl = [], []
+    fns = [k for k in P.bodies if k == "fontbe::name::merge_name_records"]
+    if len(fns) != 1:
+        raise E5Error("N5: fontbe::name::merge_name_records not found")
+    key = fns[0]
+    b = P.bodies[key]
+    DROPPING = {"filter", "filter_map", "skip", "skip_while", "take", "take_while", "step_by", "retain", "dedup", "dedup_by", "dedup_by_key", "truncate", "drain", "flat_map", "nth", "last", "find"}
+    PASS = {"into_iter", "iter", "chain", "map", "cloned", "copied", "collect", "into", "from_iter", "extend", "rev", "enumerate", "inspect", "by_ref", "peekable"}
+    cur = {1}
+    seen_calls = []
+    reached_collect = False
+    changed = True
+    while changed:
+        changed = False
+        for blk in b["blocks"]:
+            if blk["cl"]:
+                continue
+            for st in blk["s"]:
+                rv = st["rv"]
+                ops = [(o.get("m") or o.get("c") or [None])[0] for o in rv.get("o", [])] + ([rv["p"][0]] if rv.get("p") else [])
+                if len(st["d"]) == 1 and st["d"][0] not in cur and rv.get("r") in ("use", "ref", "cast") and any(x in cur for x in ops):
+                    cur.add(st["d"][0])
+                    changed = True
+            t = blk["t"]
+            if t["t"] == "call" and t["a"]:
+                a0 = (t["a"][0].get("m") or t["a"][0].get("c") or [None])[0]
+                if a0 in cur:
+                    nm = ((t["f"].get("k") or {}).get("fn") or "").rsplit("::", 1)[-1]
+                    if (blk["t"]["l"], nm) not in seen_calls:
+                        seen_calls.append((blk["t"]["l"], nm))
+                    if nm in ("collect", "from_iter", "extend"):
+                        reached_collect = True
+                    elif len(t["d"]) == 1 and t["d"][0] not in cur:
+                        cur.add(t["d"][0])
+                        changed = True
+    dropping = [(l, n) for l, n in seen_calls if n in DROPPING]
+    unknown = [(l, n) for l, n in seen_calls if n not in DROPPING and n not in PASS]
+    ok = reached_collect and not dropping and not unknown
+    obl.append({"rule": "N5", "inst": f"merge_name_records: every derived record reaches the keyed merge ({' -> '.join(n for _, n in seen_calls)})", "ok": ok})
+    if not ok:
+        what = (f"passes them through {dropping[0][1]}()" if dropping else (f"passes them through {unknown[0][1]}(), which this rule does not know" if unknown else "never collects them"))
+        findings.append({"rule": "N5", "key": f"N5|{norm_fn(key)}|{(dropping or unknown or [(0, 'no-collect')])[0][1]}",
+                         "msg": f"{key} {what} before merging the derived name records with the feature file's: a derived record can be dropped although no feature-file record has the same "
+                                f"platform/encoding/language/name id (e.g. the English family or style name disappears because the feature file sets the same name id for another language), "
+                                f"and fvar/STAT then refer to a name that is not the source's", "loc": P.site_loc(key, (dropping or unknown or [(b['blocks'][0]['t']['l'], '')])[0][0]), "detail": {}})
+    return findings, obl, {"n5_merge_chain": [n for _, n in seen_calls]}
